@@ -68,6 +68,14 @@ def documents(rng, n, depth=4, deep_every=25, f32=False):
                     out.append((fmt, v, t))
             except Exception:
                 continue
+    # collections longer than any 16-bit length field or pre-allocation cap
+    for fmt in ("msgpack", "json"):
+        for v in ({"arr": [i % 10 for i in range(40000)]}, {"m": {"k%d" % i: i % 3 for i in range(33000)}}):
+            try:
+                t = gen.spell_canonical(v, fmt)
+                out.append((fmt, v, t))
+            except Exception:
+                continue
     tries = 0
     while len(out) < n and tries < n * 5:
         tries += 1
